@@ -125,8 +125,13 @@ def c09_oracle(ops, outs):
                     res.append((_classify_stale(k, a, pi, key, prev, peers), where))
                 elif row["hist"] == "-":
                     res.append(("history-null-after-clean-seed", where))
-                else:
+                elif any(k2[0] == key[0] and v2["dirty"] and (k2[1], k2[2]) < (key[1], key[2]) for k2, v2 in p.log.items()):
+                    seen.discard(tag)       # an earlier day of the room is still marked: its chain is not due yet
+                elif _history_cause(p, key):
                     res.append(("history-not-function-of-content", where))
+                else:
+                    # none of the known causes (seed of another entity, NULL history, emptied day kept) precedes this row
+                    res.append(("history-wrong-without-known-cause", where))
         # equal content of a room on two peers, logs fully recomputed -> equal logs
         for room in ("1", "2"):
             for x in range(len(peers)):
@@ -148,6 +153,26 @@ def c09_oracle(ops, outs):
                         res.append(("same-content-different-history", "peers %d,%d room %s after `%s`" % (x, y, room, op)))
         prev = peers
     return res
+
+
+def _history_cause(p, key):
+    """a wrong history hash has a known cause when, in the same room, an earlier row of the table (entity, day order)
+    belongs to another entity (#20: entity not compared), has no history hash (#20: seed dropped), is an emptied
+    day that kept its row (#20), or is stale / missing (reported under its own signature)"""
+    room, ent, day = key
+    for k2, v in p.log.items():
+        if k2[0] != room: continue
+        if k2[1] != ent:
+            if _ent_lt(k2[1], ent): return True
+            continue
+        if int(k2[2]) < int(day) and (v["hist"] == "-" or v["n"] == 0 or v["chk"] != "ok"): return True
+    # an earlier day that holds rows and has no log row, or a stale one (reported under their own signatures)
+    return any(m[0] == room and m[1] == ent and int(m[2]) < int(day) for m in p.missing)
+
+
+def _ent_lt(a, b):
+    try: return int(a) < int(b)
+    except ValueError: return a < b
 
 
 def _batch_has(ops, i, kind):
